@@ -11,7 +11,7 @@ STOPS = ["TAA", "TAG", "TGA"]
 RC = {"A": "T", "C": "G", "G": "C", "T": "A", "N": "N", "a": "t", "c": "g", "g": "c", "t": "a", "n": "n"}
 
 QUAL_KEYS_PLAIN = ["note", "db_xref", "inference", "function", "go_component", "old_locus_tag", "experiment", "kz"]
-QUAL_VALS_PLAIN = ["alpha", "beta gamma", "x1", "42", "ECO:0000313", "GO:0005737", "hypothetical protein", "b", "zz top"]
+QUAL_VALS_PLAIN = ["alpha", "beta gamma", "x1", "42", "ECO:0000313", "GO:0005737", "hypothetical protein", "b", "zz top", "007", "True"]
 
 
 def revcomp(s):
